@@ -91,6 +91,39 @@ class UnderTestError(Exception):
         self.frame = innermost_frame(exc)
 
 
+class CaseTimeout(BaseException):
+    """The per-case wall-clock budget ran out: the case is inconclusive (skipped)."""
+
+
+class case_timeout:  # noqa: N801
+    """Context manager: raise `CaseTimeout` in the main thread after `seconds`."""
+
+    def __init__(self, seconds: float) -> None:
+        self.seconds = seconds
+        self.active = False
+
+    def __enter__(self):
+        import signal  # noqa: PLC0415
+        import threading  # noqa: PLC0415
+
+        if self.seconds > 0 and threading.current_thread() is threading.main_thread():
+            def handler(signum, frame):
+                raise CaseTimeout
+
+            self.old = signal.signal(signal.SIGALRM, handler)
+            signal.setitimer(signal.ITIMER_REAL, self.seconds)
+            self.active = True
+        return self
+
+    def __exit__(self, *exc):
+        import signal  # noqa: PLC0415
+
+        if self.active:
+            signal.setitimer(signal.ITIMER_REAL, 0)
+            signal.signal(signal.SIGALRM, self.old)
+        return False
+
+
 def innermost_frame(exc: BaseException) -> str:
     """`file:function` of the innermost frame inside the ampform package (or overall)."""
     tb = traceback.extract_tb(exc.__traceback__)
@@ -193,6 +226,7 @@ class Collector:
         self.cap_s = float(os.environ.get("VP_CAP_S", budget.get("cap_s", 600)))
         self.shrink_calls = int(budget.get("shrink_calls", 60))
         self.shrink_s = float(budget.get("shrink_s", 120))
+        self.case_timeout_s = float(os.environ.get("VP_CASE_TIMEOUT_S", budget.get("case_timeout_s", 120)))
         self.evaluations = 0
         self.ok = 0
         self.skipped: dict[str, int] = {}
@@ -223,7 +257,10 @@ class Collector:
                 ):
                     return None
         try:
-            res = self.mod.run_case(desc)
+            with case_timeout(self.case_timeout_s):
+                res = self.mod.run_case(desc)
+        except CaseTimeout:
+            res = skip("case_timeout", timeout_s=self.case_timeout_s)
         except UnderTestError as exc:
             res = violation(
                 f"raises:{exc.label}",
